@@ -14,9 +14,9 @@ zmq.Poller replaced by a scripted one that keeps pyzmq's integer-millisecond tim
 time (unit 30 ms, os.pipe) against SelectEventLoop, AsyncioEventLoop, TornadoEventLoop,
 TwistedEventLoop (a fresh SelectReactor per script), TrioEventLoop and ZMQEventLoop, one forked child
 per script; the blocking primitive of each loop is wrapped *in the child process only* so that "the
-loop blocks" is observed, not inferred from timing.  Real-time failures are re-run twice and count
-only if they reproduce every time (the machine may be loaded; the oracle itself uses no time gaps
-except "not before the due time").
+loop blocks" is observed, not inferred from timing (the oracle uses no time gaps except "not before
+the due time", so a loaded machine cannot produce a false alarm).  Real-time failures are re-run
+twice; the detail carries seen_in_runs k/3 (races in a third-party scheduler need not reproduce).
 """
 from __future__ import annotations
 
@@ -369,6 +369,20 @@ class _FakePoller:
             if isinstance(timeout, float):
                 timeout = int(timeout)
             secs = timeout / 1000.0
+        if not self.objs:
+            # pyzmq's zmq_poll returns [] at once when nothing is registered, whatever the timeout
+            # (checked against the installed pyzmq: zmq.Poller().poll(300) takes microseconds)
+            w = self.world
+            if secs is None:
+                if w.activity == w.last_activity:
+                    w.trace.append(["select", None, [], [], w.now, w.now])
+                    raise HarnessStop
+                w.last_activity = w.activity
+            w.waits += 1
+            if w.waits > w.MAX_WAITS:
+                raise HarnessAbort(f"more than {w.MAX_WAITS} waits")
+            w.trace.append(["select", secs, [], [], w.now, w.now])  # asked to wait `secs`, came back at once
+            return []
         fds = {o.fileno() - FD0: o for o in self.objs}
         ready = self.world.wait(list(fds), secs)
         return [(p + FD0, 1) for p in ready]
@@ -471,7 +485,7 @@ def available_loops():
     return out
 
 
-def _build_real(kind, trace, now):
+def _build_real(kind, trace, now, scen=None):
     """Returns (loop, cleanup).  The blocking primitive of the loop is wrapped to record every wait."""
 
     def rec(timeout):
@@ -536,6 +550,13 @@ def _build_real(kind, trace, now):
 
         from urwid.event_loop.trio_loop import TrioEventLoop
 
+        # trio reverses each batch of runnable tasks with probability 1/2 (trio/_core/_run.py, "_r");
+        # the script's "order" field pins that choice (asc: never, desc: always), so both schedules are
+        # explored deterministically instead of by chance
+        import trio._core._run as _trun
+
+        rev = (scen or {}).get("order", "asc") == "desc"
+        _trun._r = types.SimpleNamespace(random=(lambda: 0.0) if rev else (lambda: 1.0), shuffle=lambda batch: None)
         orig_run = trio.run
 
         class RecInstrument(trio.abc.Instrument):
@@ -612,7 +633,7 @@ def _real_child(kind, scen, out_fd):
 
     threading.Thread(target=watchdog, daemon=True).start()
     try:
-        loop, _ = _build_real(kind, trace, now)
+        loop, _ = _build_real(kind, trace, now, scen)
         pipes = _RealPipes()
         drv = Driver(loop, scen, trace, now, pipes, UNIT, lambda d: _time.sleep(d * UNIT), pipes.fd)
         for op in scen.get("pre", ()):
@@ -715,10 +736,11 @@ def judge_real(kind, trace):
 
 
 def mk(delays=(), pipes=(), nidle=0, pre_extra=(), acts=None, arrivals=None, noread=None, order="asc", drift=0):
-    """pipes: tuple of (pipe, bytes written before run()); arrivals: {pipe: [times]}."""
+    """pipes: tuple of (pipe, bytes written before run()[, watched before run() = True]); arrivals: {pipe: [times]}."""
     pre = [["alarm", i, d] for i, d in enumerate(delays)]
-    for p, n in pipes:
-        pre.append(["watch", p])
+    for p, n, *w in pipes:
+        if not w or w[0]:
+            pre.append(["watch", p])
         pre.extend([["write", p]] * n)
     pre.extend(["idle", k] for k in range(nidle))
     pre.extend(list(op) for op in pre_extra)
@@ -737,12 +759,12 @@ def mk(delays=(), pipes=(), nidle=0, pre_extra=(), acts=None, arrivals=None, nor
 
 
 def _callbacks(delays, pipes, nidle):
-    return [f"A{i}" for i in range(len(delays))] + [f"P{p}" for p, _ in pipes] + [f"I{k}" for k in range(nidle)]
+    return [f"A{i}" for i in range(len(delays))] + [f"P{p[0]}" for p in pipes] + [f"I{k}" for k in range(nidle)]
 
 
 def _actions(delays, pipes, nidle, full=True):
     na = len(delays)
-    ps = [p for p, _ in pipes]
+    ps = [p[0] for p in pipes]
     out = []
     for s in range(na):
         out.append((("rm_alarm", s),))
@@ -793,6 +815,7 @@ PIPE_PATTERNS = [
     (((0, 1), (1, 1)), {}),
     (((0, 2), (1, 1)), {1: [1.5]}),
     (((0, 0), (1, 0)), {0: [0.5, 2], 1: [2]}),
+    (((0, 1), (1, 1, False)), {1: [1]}),  # descriptor 1 has data but is not watched before run()
 ]
 
 
@@ -811,7 +834,7 @@ def gen_pre_removal(tier):
     """Entities removed (twice) or removed and re-added before run()."""
     base = [((1, 1, 2), ((0, 1), (1, 1)), 2, {}), ((0, 2), ((0, 0),), 1, {0: [1]})]
     for delays, pipes, nidle, arr in base:
-        ents = [("alarm", i) for i in range(len(delays))] + [("watch", p) for p, _ in pipes] + [("idle", k) for k in range(nidle)]
+        ents = [("alarm", i) for i in range(len(delays))] + [("watch", p[0]) for p in pipes] + [("idle", k) for k in range(nidle)]
         for r in (1, 2):
             for sub in itertools.combinations(ents, r):
                 for mode in ("once", "twice", "readd"):
@@ -828,7 +851,7 @@ def gen_pre_removal(tier):
 def gen_k1(tier):
     """Exactly one callback acts (full action list), on its first or second invocation."""
     alarm_sets = [d for n in (1, 2, 3) for d in itertools.product((0, 1, 2), repeat=n)]
-    pipe_sets = [PIPE_PATTERNS[0], PIPE_PATTERNS[6], PIPE_PATTERNS[3]] if tier != "quick" else [PIPE_PATTERNS[6]]
+    pipe_sets = [PIPE_PATTERNS[0], PIPE_PATTERNS[6], PIPE_PATTERNS[3], PIPE_PATTERNS[8]] if tier != "quick" else [PIPE_PATTERNS[6]]
     for delays in alarm_sets:
         for pipes, arr in pipe_sets:
             nidle = 2
@@ -879,7 +902,7 @@ def gen_random(tier, seed, count):
                     a += list(r.choice(actions))
                 per[nth] = a
             acts[cb] = per
-        noread = {p: r.randint(0, 2) for p, _ in pipes if r.random() < 0.3}
+        noread = {p[0]: r.randint(0, 2) for p in pipes if r.random() < 0.3}
         extra = []
         if r.random() < 0.2 and cbs:
             c = r.choice(cbs)
@@ -920,8 +943,20 @@ def gen_real(tier):
         for cb in cbs:
             for a in full:
                 out.append(mk(delays, pipes, nidle, acts={cb: {1: a}}))
+    # a new alarm / a watch on a descriptor that already has data / a new idle callback, registered
+    # from each kind of callback (idle callbacks run when the loop is about to block)
+    for cb in ("A0", "P0", "I0"):
+        for a in ((("watch", 1),), (("alarm", 2, 0),), (("alarm", 2, 1),), (("idle", 1),)):
+            out.append(mk((1, 2), ((0, 2), (1, 1, False)), 1, acts={cb: {1: a}}))
+    out.append(mk((), ((0, 1),), 1, acts={"I0": {1: [("alarm", 0, 0)]}}))
+    out.append(mk((), ((0, 1), (1, 1, False)), 1, acts={"I0": {1: [("watch", 1)]}}))
     # removal before run (True then False), alarms overdue together, both raising in one pass
     out.append(mk(delays, pipes, nidle, pre_extra=[("rm_alarm", 1), ("rm_alarm", 1), ("rm_watch", 1), ("rm_watch", 1), ("rm_idle", 0), ("rm_idle", 0)]))
+    # a slow callback makes the later alarms overdue together (several variants: a scheduler that
+    # orders them arbitrarily gets it right by chance half of the time)
+    for nidle in (0, 1, 2):
+        out.append(mk((0, 1, 2), ((0, 1),), nidle, acts={"A0": {1: [("sleep", 2.5)]}}))
+        out.append(mk((2, 1, 0), ((0, 1),), nidle, acts={"A2": {1: [("sleep", 2.5)]}}))
     out.append(mk((0, 1, 2), (), 1, acts={"A0": {1: [("sleep", 2.5)]}}))
     out.append(mk((2, 1, 0), (), 1, acts={"A2": {1: [("sleep", 2.5)]}}))
     out.append(mk((1, 1), (), 0, acts={"A0": {1: [("raise", "value")]}, "A1": {1: [("raise", "value")]}}))
@@ -946,45 +981,79 @@ def _why(res):
 
 
 class _Board:
-    """One Check per (loop label, clause)."""
+    """One Check per (loop label, clause).  Cases are buffered and handed to the Checks with one
+    representative of every distinct kind of failure first, so that the (capped) failure lists show
+    every kind."""
 
     def __init__(self, label, rule_prefix, bound, exhaustive=True):
         self.label = label
         self.checks = {c: Check(f"C13/{label}/{c}", f"{rule_prefix}: clause '{c}' of spec/evloop_model.judge", exhaustive, bound) for c in CLAUSES}
         self.fail_kinds = defaultdict(int)
+        self.bad_cases = {c: [] for c in CLAUSES}
+        self.overflow = {c: [] for c in CLAUSES}
+
+    @staticmethod
+    def _kind(msg):
+        import re
+
+        m = msg.split(": ", 1)[1]
+        return re.sub(r"[0-9]+(\.[0-9]+)?(e-?[0-9]+)?", "N", m)[:110]
+
+    def add_ok(self, key, used, sample=None):
+        for c, u in zip(CLAUSES, used):
+            self.checks[c].case(key, True, None, nontrivial=u, sample=sample if u else None)
 
     def add(self, scen, res, extra=None, family=""):
         key = _key(scen)
         for c in CLAUSES:
-            ok = not res["viol"][c]
-            detail = None
-            if not ok:
-                detail = {"loop": self.label, "clause": c, "family": family, "scenario": scen, "why": "; ".join(res["viol"][c][:3])}
-                if extra:
-                    detail.update(extra)
-                self.fail_kinds[(c, res["viol"][c][0].split(": ", 1)[1][:90])] += 1
-            self.checks[c].case(key, ok, detail, nontrivial=res["used"][c], sample={"family": family, "scenario": scen} if res["used"][c] else None)
+            if not res["viol"][c]:
+                self.checks[c].case(key, True, None, nontrivial=res["used"][c], sample={"family": family, "scenario": scen} if res["used"][c] else None)
+                continue
+            detail = {"loop": self.label, "clause": c, "family": family, "scenario": scen, "why": "; ".join(res["viol"][c][:3])}
+            if extra:
+                detail.update(extra)
+            kind = self._kind(res["viol"][c][0])
+            self.fail_kinds[(c, kind)] += 1
+            if len(self.bad_cases[c]) < 2000 or kind not in {k for k, *_ in self.bad_cases[c]}:
+                self.bad_cases[c].append((kind, key, res["used"][c], detail))
+            else:
+                self.overflow[c].append((key, res["used"][c]))
 
     def results(self):
         out = []
         for c in CLAUSES:
-            r = self.checks[c].result()
+            chk = self.checks[c]
+            seen, first, rest = set(), [], []
+            for item in self.bad_cases[c]:
+                (rest if item[0] in seen else first).append(item)
+                seen.add(item[0])
+            for _kind, key, used, detail in first + rest:
+                chk.case(key, False, detail, nontrivial=used)
+            for key, used in self.overflow[c]:
+                chk.case(key, False, {"case": key}, nontrivial=used)
+            self.bad_cases[c] = []
+            self.overflow[c] = []
+            r = chk.result()
             if r["evaluations"]:
                 out.append(r)
         return out
 
 
 def _virtual_families(tier, seed):
-    fams = [("passive", gen_passive(tier)), ("pre-removal", gen_pre_removal(tier)), ("one-actor", gen_k1(tier)), ("two-actors", gen_k2(tier)), ("exception-types", gen_exc_types(EXC_KINDS)), ("random", gen_random(tier, seed, 3000 if tier == "quick" else 150000))]
+    fams = [("passive", gen_passive(tier)), ("pre-removal", gen_pre_removal(tier)), ("one-actor", gen_k1(tier)), ("two-actors", gen_k2(tier)), ("exception-types", gen_exc_types(EXC_KINDS)), ("random", gen_random(tier, seed, 3000 if tier == "quick" else 600000))]
     return fams
 
 
 def _eval_virtual_chunk(args):
+    """Returns compact results: ("ok", key, used bits, family) or ("bad", family, scen, judge result)."""
     kind, scens = args
     out = []
     for fam, scen in scens:
-        tr = run_virtual(kind, scen)
-        out.append((fam, scen, judge(tr)))
+        res = judge(run_virtual(kind, scen))
+        if any(res["viol"].values()):
+            out.append(("bad", fam, scen, res))
+        else:
+            out.append(("ok", _key(scen), tuple(res["used"][c] for c in CLAUSES), fam))
     return out
 
 
@@ -995,45 +1064,63 @@ def _run_virtual_board(kind, label, tier, seed, fams, procs):
     counts = defaultdict(int)
     for fam, _ in items:
         counts[fam] += 1
+    chunks = [(kind, items[i : i + 1000]) for i in range(0, len(items), 1000)]
+    nsample = [0]
+
+    def take(part):
+        for rec in part:
+            if rec[0] == "ok":
+                sample = None
+                if nsample[0] < 40:
+                    nsample[0] += 1
+                    sample = {"family": rec[3], "scenario": json.loads(rec[1])}
+                board.add_ok(rec[1], rec[2], sample)
+            else:
+                board.add(rec[2], rec[3], family=rec[1])
+
     if procs > 1 and len(items) > 20000:
         import multiprocessing as mp
 
-        chunks = [(kind, items[i : i + 2000]) for i in range(0, len(items), 2000)]
         with mp.get_context("fork").Pool(procs) as pool:
-            for part in pool.imap(_eval_virtual_chunk, chunks):
-                for fam, scen, res in part:
-                    board.add(scen, res, family=fam)
+            for part in pool.imap_unordered(_eval_virtual_chunk, chunks):
+                take(part)
     else:
-        for fam, scen in items:
-            board.add(scen, judge(run_virtual(kind, scen)), family=fam)
+        for ch in chunks:
+            take(_eval_virtual_chunk(ch))
     return board, dict(counts)
 
 
 def _run_real_board(kind, tier, scens, par):
     label = f"{kind}-realtime"
-    board = _Board(label, f"real {kind} loop in real time (unit {UNIT}s, os.pipe), blocking primitive observed; a failure counts only if it reproduces in 3 of 3 runs", f"{len(scens)} scripts on 3 alarms (delays 1,1,2), 2 pipes, 2 idle callbacks: one acting callback + hand-picked two-actor / lateness scripts", False)
+    board = _Board(label, f"real {kind} loop in real time (unit {UNIT}s, os.pipe), blocking primitive observed; failures are re-run twice and carry seen_in_runs k/3", f"{len(scens)} scripts on 3 alarms (delays 1,1,2), 2 pipes, 2 idle callbacks: one acting callback + hand-picked two-actor / lateness scripts", False)
+    if kind == "trio":  # both batch orders of trio's scheduler (see _build_real)
+        scens = [dict(s, order=o) if o == "desc" else s for s in scens for o in ("asc", "desc")]
     traces = run_real_many([(kind, s) for s in scens], par)
     res = [judge_real(kind, t) for t in traces]
+    # The oracle uses no timing except "not before the due time", so a violation seen once is a fact;
+    # failing scripts are nevertheless re-run twice: the count is reported with the failure, and a
+    # failure that consists only of a missing / aborted run (child killed on a loaded machine) is
+    # dropped when the re-runs are clean.
     bad = [i for i, r in enumerate(res) if any(r["viol"].values())]
+    repro = {i: 1 for i in bad}
     flaky = 0
     for _attempt in range(2):
         if not bad:
             break
         again = run_real_many([(kind, scens[i]) for i in bad], par)
-        still = []
         for i, t in zip(bad, again):
             r2 = judge_real(kind, t)
-            # keep only the clauses that fail again
-            merged = {c: (res[i]["viol"][c] if r2["viol"][c] else []) for c in CLAUSES}
-            res[i] = {"viol": merged, "used": res[i]["used"], "notes": res[i]["notes"]}
-            if any(merged.values()):
-                still.append(i)
-            else:
-                flaky += 1
-        bad = still
+            if any(r2["viol"].values()):
+                repro[i] += 1
+    for i in bad:
+        infra = all("did not finish" in m or "produced no trace" in m for c in CLAUSES for m in res[i]["viol"][c])
+        if repro[i] == 1:
+            flaky += 1
+            if infra:
+                res[i] = {"viol": {c: [] for c in CLAUSES}, "used": res[i]["used"], "notes": res[i]["notes"]}
     notes = defaultdict(int)
-    for s, r in zip(scens, res):
-        board.add(s, r, family="real")
+    for i, (s, r) in enumerate(zip(scens, res)):
+        board.add(s, r, {"seen_in_runs": f"{repro[i]}/3"} if i in repro else None, family="real")
         for n in r["notes"]:
             notes[n.split("#")[0][:60]] += 1
     return board, flaky, dict(notes)
@@ -1044,11 +1131,23 @@ def run(tier="quick", seed=0):
     procs = 1 if quick else 14
     checks = []
     info = {}
+    avail = available_loops()
+    # real-time boards first: they fork one child per script, which is cheap while this process is small
+    real_checks = []
+    scens = gen_real(tier)
+    par = 10 if quick else 12
+    for kind in ("select", "asyncio", "tornado", "twisted", "trio", "zmq"):
+        if avail.get(kind) is not None:
+            info[f"{kind}-realtime"] = {"skipped": avail[kind]}
+            continue
+        t1 = _time.time()
+        b, flaky, notes = _run_real_board(kind, tier, scens, par)
+        real_checks += b.results()
+        info[f"{kind}-realtime"] = {"scripts": len(scens) * (2 if kind == "trio" else 1), "seen_once_only_on_rerun": flaky, "failure_kinds": {f"{c}: {m}": n for (c, m), n in b.fail_kinds.items()}, "notes": notes, "wall_s": round(_time.time() - t1, 1)}
     t0 = _time.time()
     board, counts = _run_virtual_board("select", "select-virtual", tier, seed, _virtual_families(tier, seed), procs)
     checks += board.results()
     info["select-virtual"] = {"scripts": counts, "failure_kinds": {f"{c}: {m}": n for (c, m), n in board.fail_kinds.items()}, "wall_s": round(_time.time() - t0, 1)}
-    avail = available_loops()
     if avail.get("zmq") is None:
         t1 = _time.time()
         zf = [("passive", (s for s in gen_passive(tier) if not s.get("drift"))), ("pre-removal", gen_pre_removal(tier)), ("one-actor", gen_k1("quick")), ("exception-types", gen_exc_types([*EXC_KINDS, "zmqeintr"]))]
@@ -1059,23 +1158,16 @@ def run(tier="quick", seed=0):
         checks += zb.results()
         info["zmq-virtual"] = {"scripts": zc, "failure_kinds": {f"{c}: {m}": n for (c, m), n in zb.fail_kinds.items()}, "wall_s": round(_time.time() - t1, 1)}
         # pyzmq's Poller.poll truncates a float timeout to whole milliseconds; shown separately so that
-        # it does not drown the main zmq checks: same passive scripts with a drifting clock
-        sub = Check("C13/zmq-virtual/alarm-submillisecond", "ZMQEventLoop under the virtual clock with 1/1024 s spent per clock reading (poll timeout truncated to whole ms as pyzmq does): alarm clause", True, "passive scripts, <= 3 alarms")
+        # it does not drown the main zmq checks: same passive scripts with a drifting clock, at least one
+        # descriptor watched (with none, pyzmq does not wait at all: that is in zmq-virtual/alarm)
+        sub = Check("C13/zmq-virtual/alarm-submillisecond", "ZMQEventLoop under the virtual clock with 1/8192 s spent per clock reading (poll timeout truncated to whole ms as pyzmq does), a descriptor watched: alarm clause", True, "passive scripts, <= 3 alarms, >= 1 descriptor")
         for s in gen_passive(tier):
-            if s.get("drift") and any(o[0] == "alarm" for o in s["pre"]):
+            if s.get("drift") and any(o[0] == "alarm" for o in s["pre"]) and any(o[0] == "watch" for o in s["pre"]):
+                s["drift"] = 1 / 8192  # a clock reading costs 0.12 ms: less than the millisecond lost by truncation
                 r = judge(run_virtual("zmq", s))
                 sub.case(_key(s), not r["viol"]["alarm"], {"loop": "zmq-virtual", "clause": "alarm", "scenario": s, "why": "; ".join(r["viol"]["alarm"][:2])}, sample=s)
         checks.append(sub.result())
-    scens = gen_real(tier)
-    par = 10 if quick else 12
-    for kind in ("select", "asyncio", "tornado", "twisted", "trio", "zmq"):
-        if avail.get(kind) is not None:
-            info[f"{kind}-realtime"] = {"skipped": avail[kind]}
-            continue
-        t1 = _time.time()
-        b, flaky, notes = _run_real_board(kind, tier, scens, par)
-        checks += b.results()
-        info[f"{kind}-realtime"] = {"scripts": len(scens), "not_reproduced_on_rerun": flaky, "failure_kinds": {f"{c}: {m}": n for (c, m), n in b.fail_kinds.items()}, "notes": notes, "wall_s": round(_time.time() - t1, 1)}
+    checks += real_checks
     return {
         "checks": checks,
         "bound": "SelectEventLoop (and ZMQEventLoop) under a virtual clock: all scripts with <= 3 alarms (delays 0/1/2), <= 2 descriptors, <= 2 idle callbacks, <= 2 acting callbacks (add/remove/raise/sleep/write from within callbacks and before run), both ready orders, clock drift 0 or 1/1024, plus seeded random scripts with <= 4 actors; the same script language in real time against select/asyncio/tornado/twisted/trio/zmq loops",
@@ -1092,13 +1184,13 @@ def replay(check_name, case):
         res = judge(run_virtual(kind, scen))
         bad = res["viol"].get(clause) if clause in res["viol"] else [m for c in CLAUSES for m in res["viol"][c]]
     else:
-        bad = None
-        for _ in range(3):
+        # one observed violation is a fact (the oracle does not depend on timing); a race inside a
+        # third-party scheduler need not show on every run, so up to 5 runs are made
+        bad = []
+        for _ in range(5):
             (tr,) = run_real_many([(kind, scen)], 1)
             res = judge_real(kind, tr)
-            b = res["viol"].get(clause, [])
-            if not b:
-                bad = []
+            bad = res["viol"].get(clause, [])
+            if bad:
                 break
-            bad = b
     return {"outcome": "confirmed" if bad else "not-reproduced", "detail": {"why": "; ".join(bad[:3]) if bad else "", "notes": res["notes"][:5]}}
